@@ -21,9 +21,9 @@ import ast
 from ..core import AnalysisError, norm, short
 from .. import effects
 from ..loader import ClassInfo
-from .dispatch import DispatchView, strip_not
+from .dispatch import DispatchView, strip_not, resolve_local
 from .common import (cfg_of, fkey, conds, has_cond, cond_texts, stmts_of, walk_body, call_tail, call_name, returns_of,
-                     raises_of, raise_type, stmt_of, kwarg, names_loaded)
+                     raises_of, raise_type, stmt_of, kwarg, names_loaded, implies_absent, implies_present)
 
 APP, ROUTE, ERR = 'clastic.application', 'clastic.route', 'clastic.errors'
 REORDER = {'sort', 'reverse', 'remove', 'pop', 'clear', 'extend', 'append', 'insert', '__setitem__', '__delitem__'}
@@ -112,17 +112,57 @@ def check_running_index(rep, rule):
         rep.fail(rule, fkey(ad, 'single insert'), 'Application.add does not place routes with exactly one self.routes.insert(index, route) '
                  '(found %s): position / order of the inserted routes is not the running index' % [short(c) for c in ins], app, ad.node)
         return
-    idx = norm(ins[0].args[0])
     ins_st = stmt_of(app, ins[0])
     loop = [s for s in stmts_of(ad.node) if isinstance(s, ast.For) and ins_st in s.body]
-    incs = [s for s in stmts_of(ad.node) if isinstance(s, ast.AugAssign) and norm(s.target) == idx and isinstance(s.op, ast.Add)
-            and isinstance(s.value, ast.Constant) and s.value.value == 1]
-    ok = len(loop) == 1 and len(incs) == 1 and incs[0] in loop[0].body and loop[0].body.index(incs[0]) > loop[0].body.index(ins_st) \
-        and all(isinstance(b, (ast.Expr, ast.AugAssign)) for b in loop[0].body)
+    pos = ins[0].args[0] if ins[0].args else None
+    idx, ok = None, False
+    if len(loop) == 1 and len(ins[0].args) == 2 and not ins[0].keywords and isinstance(ins_st, ast.Expr):
+        lp = loop[0]
+        it = lp.iter
+        if isinstance(lp.target, ast.Name) and isinstance(pos, ast.Name):
+            # for r in routes: insert(i, r); i += 1
+            idx = pos.id
+            incs = [s for s in stmts_of(ad.node) if isinstance(s, ast.AugAssign) and norm(s.target) == idx]
+            ok = len(incs) == 1 and isinstance(incs[0].op, ast.Add) and isinstance(incs[0].value, ast.Constant) and incs[0].value.value == 1 and \
+                type(incs[0].value.value) is int and lp.body == [ins_st, incs[0]] and norm(ins[0].args[1]) == lp.target.id and \
+                not any(isinstance(s, ast.Assign) and idx in [norm(t) for t in s.targets] for s in stmts_of(lp))
+        elif isinstance(lp.target, ast.Tuple) and len(lp.target.elts) == 2 and all(isinstance(e, ast.Name) for e in lp.target.elts) and \
+                isinstance(it, ast.Call) and call_name(it) == 'enumerate' and it.args and not it.keywords:
+            # for k, r in enumerate(routes): insert(i + k, r)      /      for k, r in enumerate(routes, i): insert(k, r)
+            k, r = lp.target.elts[0].id, lp.target.elts[1].id
+            if len(it.args) == 1 and isinstance(pos, ast.BinOp) and isinstance(pos.op, ast.Add) and \
+                    sorted([type(pos.left).__name__, type(pos.right).__name__]) == ['Name', 'Name'] and k in (pos.left.id, pos.right.id):
+                idx = pos.right.id if pos.left.id == k else pos.left.id
+            elif len(it.args) == 2 and isinstance(it.args[1], ast.Name) and isinstance(pos, ast.Name) and pos.id == k:
+                idx = it.args[1].id
+            ok = idx is not None and idx != k and lp.body == [ins_st] and norm(ins[0].args[1]) == r and \
+                not any(isinstance(s, (ast.Assign, ast.AugAssign)) and idx in [norm(t) for t in (s.targets if isinstance(s, ast.Assign) else [s.target])]
+                        for s in stmts_of(lp))
     rep.check(rule, fkey(ad, 'running index'), ok, 'routes of one add() are inserted contiguously at index, index+1, ...' if ok else
               'add() does not insert at a running index (routes of one entry are reversed or interleaved)', app, ins_st)
+    if idx is None:
+        idx = norm(pos)
+    # the start index: the caller's, or len(self.routes) when the caller gave none
+    params = ad.params()
     dflt = [s for s in stmts_of(ad.node) if isinstance(s, ast.Assign) and norm(s.targets[0]) == idx]
-    ok = len(dflt) == 1 and norm(dflt[0].value) == 'len(self.routes)' and has_cond(conds(ad, dflt[0]), lambda t: norm(t) == '%s is None' % idx, True)
+    given = [p for p in params if any(isinstance(s, ast.Assign) and norm(s.targets[0]) == idx and
+                                      has_cond(conds(ad, s), lambda t: norm(t) == '%s is None' % p, True) for s in dflt)]
+    ok = len(given) == 1 and (idx == given[0] or idx not in params)
+    if ok:
+        p = given[0]
+        n_len = 0
+        for s in dflt:
+            cs = conds(ad, s)
+            if norm(s.value) == 'len(self.routes)' and has_cond(cs, lambda t: norm(t) == '%s is None' % p, True):
+                n_len += 1
+            elif norm(s.value) == p and has_cond(cs, lambda t: norm(t) == '%s is None' % p, False):
+                pass
+            else:
+                ok = False
+        ok = ok and n_len == 1 and (idx == p or len(dflt) == 2)
+        if ok and loop:
+            c_ = cfg_of(ad)
+            ok = c_.must_pass(c_.nodes_of_all(dflt), c_.entry, c_.nodes_of(loop[0])) if idx != p else True
     rep.check(rule, fkey(ad, 'default index'), ok, 'without an index, routes are appended (index = len(self.routes))' if ok else
               'default insertion index is not len(self.routes)', app, dflt[0] if dflt else ad.node)
 
@@ -203,15 +243,14 @@ def _rest(rep, repo, app, route, err, dv, cfg, f):
     is_exc = lambda t: norm(t) == '%s.exceptions' % ds
     is_am = lambda t: norm(t) == '%s.allowed_methods' % ds
     kinds = {}
-    aliases = dict((norm(s.targets[0]), norm(s.value)) for s in stmts_of(hs.node) if isinstance(s, ast.Assign))
+    res = lambda e: resolve_local(hs.node, e)
     for r in returns_of(hs):
         v = r.value
         cs = conds(hs, r)
-        txt = norm(v)
-        if isinstance(v, ast.Subscript) and norm(v.value) == '%s.exceptions' % ds:
+        if isinstance(v, ast.Subscript) and norm(res(v.value)) == '%s.exceptions' % ds:
             kinds['exc'] = (r, cs, norm(v.slice))
         elif isinstance(v, ast.Call):
-            callee = aliases.get(norm(v.func), norm(v.func))
+            callee = norm(res(v.func))
             if callee.endswith('method_not_allowed_type'):
                 kinds['405'] = (r, cs, v)
             elif callee.endswith('not_found_type'):
@@ -220,7 +259,7 @@ def _rest(rep, repo, app, route, err, dv, cfg, f):
     rep.check('R06.c', fkey(hs, 'last exception'), ok, 'recorded non-breaking errors win, and the most recent one is used' if ok else
               'the sentinel does not return exceptions[-1] when errors were recorded', route, kinds.get('exc', (hs.node,))[0])
     ok = '405' in kinds and has_cond(kinds['405'][1], is_exc, False) and has_cond(kinds['405'][1], is_am, True) and \
-        norm(kwarg(kinds['405'][2], 'allowed_methods')) == '%s.allowed_methods' % ds
+        kwarg(kinds['405'][2], 'allowed_methods') is not None and norm(res(kwarg(kinds['405'][2], 'allowed_methods'))) == '%s.allowed_methods' % ds
     rep.check('R06.c', fkey(hs, '405'), ok, 'else, if methods were recorded: 405 built with allowed_methods=dispatch_state.allowed_methods' if ok else
               'the 405 branch is missing, mis-ordered, or not given the recorded methods', route, kinds.get('405', (hs.node,))[0])
     ok = '404' in kinds and has_cond(kinds['404'][1], is_exc, False) and has_cond(kinds['404'][1], is_am, False)
@@ -260,17 +299,60 @@ def _rest(rep, repo, app, route, err, dv, cfg, f):
 
     # ---- R06.d -----------------------------------------------------------
     ri = route.func('Route.__init__')
+    rres = lambda e: resolve_local(ri.node, e)
+
+    def upper_set(e):
+        """``e`` builds a set of the upper-cased members of a local: returns that local's name, else None."""
+        e = rres(e)
+        comp = e if isinstance(e, ast.SetComp) else \
+            e.args[0] if isinstance(e, ast.Call) and call_name(e) == 'set' and len(e.args) == 1 and not e.keywords and \
+            isinstance(e.args[0], (ast.ListComp, ast.GeneratorExp, ast.SetComp)) else None
+        if comp is None or len(comp.generators) != 1 or comp.generators[0].ifs or not isinstance(comp.generators[0].iter, ast.Name) or \
+                not isinstance(comp.generators[0].target, ast.Name):
+            return None
+        if norm(comp.elt) != '%s.upper()' % comp.generators[0].target.id:
+            return None
+        return comp.generators[0].iter.id
     ms = [s for s in stmts_of(ri.node) if isinstance(s, ast.Assign) and norm(s.targets[0]) == 'self.methods']
-    ok = len(ms) == 1 and '.upper()' in norm(ms[0].value) and 'set(' in norm(ms[0].value)
+    raw = None            # the local holding the declared methods
+    holders = {'self.methods'}    # expressions denoting the set that ends up in self.methods
+    n_set, ok = 0, bool(ms)
+    for s_ in ms:
+        v, cs = s_.value, conds(ri, s_)
+        if isinstance(v, ast.BoolOp) and isinstance(v.op, ast.And) and len(v.values) == 2 and isinstance(v.values[0], ast.Name) and \
+                upper_set(v.values[1]) == v.values[0].id:
+            raw, n_set = v.values[0].id, n_set + 1            # methods and set(m.upper() for m in methods)
+        elif upper_set(v) is not None and implies_present(cs, upper_set(v)):
+            raw, n_set = upper_set(v), n_set + 1              # (methods truthy)  set(...)
+            if isinstance(v, ast.Name):
+                holders.add(v.id)
+        elif isinstance(v, ast.Name) and implies_absent(cs, v.id):
+            pass                                              # (methods falsy)   self.methods = methods
+        elif isinstance(v, ast.Constant) and v.value is None:
+            pass
+        else:
+            ok = False
+    ok = ok and n_set == 1
     rep.check('R06.d', fkey(ri, 'upper-cased set'), ok, 'declared methods are upper-cased into a set' if ok else
               'Route.__init__ does not upper-case the declared methods', route, ms[0] if ms else ri.node)
+
+    def unknown_of(e, depth=0):
+        """``e`` is (a list / sorted list / the set itself of) <the method set> minus HTTP_METHODS"""
+        e = rres(e)
+        if isinstance(e, ast.Call) and call_name(e) in ('list', 'sorted', 'tuple', 'set', 'frozenset') and len(e.args) == 1 and depth < 2:
+            return unknown_of(e.args[0], depth + 1)
+        if isinstance(e, ast.BinOp) and isinstance(e.op, ast.Sub):
+            return norm(e.left) in holders and norm(e.right) == 'HTTP_METHODS'
+        if isinstance(e, ast.Call) and call_tail(e) == 'difference' and len(e.args) == 1:
+            return norm(e.func.value) in holders and norm(e.args[0]) == 'HTTP_METHODS'
+        return False
     rz = [r for r in raises_of(ri) if raise_type(r) == 'InvalidMethod']
-    ok = bool(rz) and any('HTTP_METHODS' in norm(s.value) and '-' in norm(s.value) for s in stmts_of(ri.node) if isinstance(s, ast.Assign))
+    ok = bool(rz) and all(any(p is True and unknown_of(t) for t, p in conds(ri, r)) for r in rz)
     rep.check('R06.d', fkey(ri, 'unknown methods rejected'), ok, 'methods outside HTTP_METHODS raise InvalidMethod' if ok else
               'unknown method names are not rejected', route, ri.node)
-    heads = [c for c in walk_body(ri.node) if isinstance(c, ast.Call) and norm(c.func) == 'self.methods.add' and
-             isinstance(c.args[0], ast.Constant) and c.args[0].value == 'HEAD']
-    ok = len(heads) == 1 and has_cond(conds(ri, heads[0]), lambda t: norm(t) == "'GET' in self.methods", True)
+    heads = [c for c in walk_body(ri.node) if isinstance(c, ast.Call) and call_tail(c) == 'add' and isinstance(c.func, ast.Attribute) and
+             norm(c.func.value) in holders and len(c.args) == 1 and isinstance(c.args[0], ast.Constant) and c.args[0].value == 'HEAD']
+    ok = len(heads) == 1 and has_cond(conds(ri, heads[0]), lambda t: norm(t) == "'GET' in %s" % norm(heads[0].func.value), True)
     rep.check('R06.d', fkey(ri, 'GET implies HEAD'), ok, 'a GET route also admits HEAD' if ok else 'GET routes no longer admit HEAD', route, ri.node)
     hm = set(route.const('HTTP_METHODS'))
     need = {'GET', 'HEAD', 'POST', 'PUT', 'DELETE', 'OPTIONS', 'TRACE', 'CONNECT', 'PATCH'}
@@ -279,13 +361,33 @@ def _rest(rep, repo, app, route, err, dv, cfg, f):
     mmf = route.func('BoundRoute.match_method')
     mcfg = cfg_of(mmf)
     mp = mmf.params()[1]
-    falses = [r for r in returns_of(mmf) if isinstance(r.value, ast.Constant) and r.value.value is False]
-    trues = [r for r in returns_of(mmf) if isinstance(r.value, ast.Constant) and r.value.value is True]
-    ok = len(falses) == 1 and bool(trues)
-    if ok:
-        cs = conds(mmf, falses[0])
-        ok = has_cond(cs, lambda t: norm(t) == '%s.upper() not in self.methods' % mp, True) and \
-            has_cond(cs, lambda t: norm(t) == 'self.methods', True)
+    mres = lambda e: resolve_local(mmf.node, e)
+
+    def member(t):
+        """True / False: comparison ``t`` true means METHOD.upper() is / is not in self.methods; None: another test"""
+        if isinstance(t, ast.Compare) and len(t.ops) == 1 and isinstance(t.ops[0], (ast.In, ast.NotIn)) and \
+                norm(mres(t.left)) == '%s.upper()' % mp and norm(mres(t.comparators[0])) == 'self.methods':
+            return isinstance(t.ops[0], ast.In)
+        return None
+
+    def methods_nonempty(cs):
+        return any(p is True and norm(mres(t)) == 'self.methods' for t, p in cs)
+    refusals, admits, unknown = [], [], []
+    for r in returns_of(mmf):
+        v, cs = r.value, conds(mmf, r)
+        if isinstance(v, ast.Constant) and v.value is True:
+            admits.append(r)
+        elif isinstance(v, ast.Constant) and v.value is False:
+            # refused: the membership test failed on this path, and there are methods to compare with
+            refusals.append(any(member(t) is not None and member(t) is not p for t, p in cs) and methods_nonempty(cs))
+        elif member(v) is True:
+            # the membership test is the answer: it may only be asked when there are methods to compare with
+            refusals.append(methods_nonempty(cs))
+            admits.append(r)
+        else:
+            unknown.append(r)
+    ok = bool(refusals) and all(refusals) and bool(admits) and not unknown and \
+        mcfg.must_pass(mcfg.nodes_of_all(returns_of(mmf)), mcfg.entry, mcfg.exit, normal_only=True)
     rep.check('R06.d', fkey(mmf), ok, 'a request is refused only if methods is non-empty and METHOD.upper() is not in it' if ok else
               'match_method no longer compares the upper-cased request method against a non-empty method set', route, mmf.node)
     for q in ('GET', 'POST', 'PUT', 'DELETE', 'HEAD', 'OPTIONS', 'TRACE', 'CONNECT', 'PATCH'):
@@ -322,7 +424,17 @@ def _rest(rep, repo, app, route, err, dv, cfg, f):
     detail = 'no store to an Allow header in %s or its bases' % mna.name
     if ok:
         fi, s = stores[0]
+        # what the stored value is computed from, through the locals of the constructor
         dep = names_loaded(s) | set(n.attr for n in ast.walk(s) if isinstance(n, ast.Attribute))
+        grew = True
+        while grew:
+            grew = False
+            for x in stmts_of(fi.node):
+                if isinstance(x, ast.Assign) and any(isinstance(t, ast.Name) and t.id in dep for t in x.targets):
+                    more = (names_loaded(x.value) | set(n.attr for n in ast.walk(x.value) if isinstance(n, ast.Attribute))) - dep
+                    if more:
+                        dep |= more
+                        grew = True
         ok = 'allowed_methods' in dep
         detail = 'the Allow value does not depend on allowed_methods: %s' % short(s)
         if ok:
@@ -333,7 +445,10 @@ def _rest(rep, repo, app, route, err, dv, cfg, f):
             detail = 'the Allow header is stored before BaseResponse.__init__ created the headers'
         if ok:
             am = [x for x in stmts_of(fi.node) if isinstance(x, ast.Assign) and norm(x.targets[0]) == 'self.allowed_methods']
-            ok = len(am) == 1 and fi.params()[1] in names_loaded(am[0].value)
+            prm = fi.params()[1]
+            # every assignment takes the constructor argument, or is the empty set on the side where there is none
+            ok = bool(am) and any(prm in names_loaded(x.value) for x in am) and \
+                all(prm in names_loaded(x.value) or (norm(x.value) in ('set()', 'set([])', 'set(())') and implies_absent(conds(fi, x), prm)) for x in am)
             detail = 'self.allowed_methods is not the constructor argument'
     rep.check('R06.e', '%s::%s::Allow' % (ERR, mna.name), ok,
               'the 405 response stores a value derived from allowed_methods under the Allow header' if ok else detail, err,
